@@ -139,6 +139,163 @@ def ExecNorm (t : Tree) : Prop := ∀ i e, t i = some e → e.kind ≠ .file →
 /-- union of two change sets: OTHER's entry where OTHER changed the id, else THIS's -/
 def union (base this other : Tree) : Tree := fun i => if other i = base i then this i else other i
 
+/-! ### `_entries3` elements as attribute triples, and the copy normalisation of `_compute_transform`
+
+The real `_compute_transform` does not see entries but the 7-tuples that
+`_entries3` yields: `(file_id, changed, paths3, parents3, names3, executable3,
+copied)`, every `*3` a flat `(base, other, this)` triple.  For a path-keyed
+(git) tree the three slots of one element may sit at three different paths:
+`base` at the path in BASE, `other` at the (renamed / copied) path in OTHER,
+`this` at the path `find_previous_path` finds in THIS.  `mergeChange` is the
+literal per-element step; `mergeEntry` above is what it amounts to when the
+triples are read off three entries (`mergeChange_ofEntries`). -/
+
+/-- a flat `(base, other, this)` triple -/
+structure T3 (α : Type) where
+  base : α
+  other : α
+  this : α
+  deriving DecidableEq, Repr
+
+/-- one element of `_entries3`.  `pairs3` is `contents_pair(tree, path)` at the
+three paths (`none`: the path is `None`); in `parents3` the outer `none` is
+"no such entry", `some none` the parent of a top-level entry's parent-less root -/
+structure Change where
+  changed : Bool
+  pairs3 : T3 (Option (Kind × Nat))
+  parents3 : T3 (Option (Option Id))
+  names3 : T3 (Option Nat)
+  executable3 : T3 (Option Bool)
+  copied : Bool
+  deriving DecidableEq, Repr
+
+/-- what `_entries3` yields for the entries `b` (BASE), `o` (OTHER), `t` (THIS) of one file -/
+def Change.ofEntries (b o t : Option Entry) (copied : Bool) : Change where
+  changed := decide (pairOf o ≠ pairOf b)
+  pairs3 := ⟨pairOf b, pairOf o, pairOf t⟩
+  parents3 := ⟨b.map (·.parent), o.map (·.parent), t.map (·.parent)⟩
+  names3 := ⟨b.map (·.name), o.map (·.name), t.map (·.name)⟩
+  executable3 := ⟨b.map (·.exec), o.map (·.exec), t.map (·.exec)⟩
+  copied := copied
+
+/-- the `if copied:` block of `_compute_transform`: "treat copies as simple adds":
+every triple becomes `(None, x[1], None)` -/
+def normCopy (c : Change) : Change :=
+  if c.copied then
+    { changed := true
+      pairs3 := ⟨none, c.pairs3.other, none⟩
+      parents3 := ⟨none, c.parents3.other, none⟩
+      names3 := ⟨none, c.names3.other, none⟩
+      executable3 := ⟨none, c.executable3.other, none⟩
+      copied := false }
+  else c
+
+/-- `_merge_names` on triples, after `name_winner = resolver(*names)`, `parent_id_winner = resolver(*parents)` -/
+def namesStepW (nameW0 parentW0 : Winner) (c : Change) : List ConflictKind × Option (Option Id × Nat) :=
+  let absent := c.names3.this.isNone
+  let nameW := overrideAbsent absent nameW0
+  let parentW := overrideAbsent absent parentW0
+  let cur : Option (Option Id × Nat) := do
+    let p ← c.parents3.this
+    let n ← c.names3.this
+    pure (p, n)
+  if nameW = .this ∧ parentW = .this then ([], cur)                -- early return
+  else
+    (if nameW = .conflict ∨ parentW = .conflict then [.path] else [],
+     if c.pairs3.other.isNone then cur                             -- `other_path is None`: nothing adjusted
+     else do
+       let p ← pick parentW c.parents3.other c.parents3.this
+       let n ← pick nameW c.names3.other c.names3.this
+       pure (p, n))
+
+def namesStepC (c : Change) : List ConflictKind × Option (Option Id × Nat) :=
+  namesStepW (threeWay c.names3.base c.names3.other c.names3.this)
+    (threeWay c.parents3.base c.parents3.other c.parents3.this) c
+
+/-- `merge_contents` for a given winner, on `contents_pair`s -/
+def contentsOnP : Winner → Option (Kind × Nat) → Option (Kind × Nat) → Status × Option (Kind × Nat) × List ConflictKind
+  | .this, t, _ => (.unmodified, t, [])
+  | .other, _, some o => (.modified, some o, [])
+  | .other, _, none => (.deleted, none, [])
+  | .conflict, some (tk, tc), some (ok, _) =>
+    if tk = .file ∧ ok = .file then (.modified, some (.file, 0), [.textMerge])
+    else (.conflicted, some (tk, tc), [.contents])
+  | .conflict, t, _ => (.conflicted, t, [.contents])
+
+/-- `if changed: _do_merge_contents(...) else "unmodified"` -/
+def contentsStepC (c : Change) : Status × Option (Kind × Nat) × List ConflictKind :=
+  if c.changed then
+    contentsOnP (if c.pairs3.other = c.pairs3.base then Winner.this
+                 else threeWay c.pairs3.base c.pairs3.other c.pairs3.this) c.pairs3.this c.pairs3.other
+  else (.unmodified, c.pairs3.this, [])
+
+/-- `_merge_executable` on triples after `winner = resolver(*executable)`: the bit
+the file ends up with (`cur`: nothing is set, the file keeps THIS's bit, a new
+file the default False) -/
+def execStepW (w0 : Winner) (c : Change) : Bool :=
+  let ex := c.executable3
+  let w := if w0 = .conflict then (if c.pairs3.other.isNone then Winner.this else Winner.other) else w0
+  let cur := match ex.this with | some x => x | none => false
+  match w with
+  | .this => cur
+  | _ =>
+    let e := if c.pairs3.other.isSome then ex.other
+             else if c.pairs3.this.isSome then ex.this
+             else if c.pairs3.base.isSome then ex.base else none
+    match e with | some x => x | none => cur
+
+def execStepC (c : Change) : Bool :=
+  execStepW (threeWay c.executable3.base c.executable3.other c.executable3.this) c
+
+/-- one iteration of the loop of `_compute_transform` -/
+def mergeChange (c0 : Change) : Result :=
+  let c := normCopy c0
+  assemble (contentsStepC c).1 (contentsStepC c).2.1 (namesStepC c).2 (execStepC c)
+    ((namesStepC c).1 ++ (contentsStepC c).2.2)
+
+/-- the loop body WITHOUT the copy normalisation (only used to show that the normalisation matters) -/
+def mergeChangeRaw (c : Change) : Result :=
+  assemble (contentsStepC c).1 (contentsStepC c).2.1 (namesStepC c).2 (execStepC c)
+    ((namesStepC c).1 ++ (contentsStepC c).2.2)
+
+/-! ### a whole merge on path-keyed (git) trees, driven by whatever `iter_changes` pairs
+
+On git trees one element of `_entries3` relates up to three different PATHS: the
+path in BASE, the path in OTHER that dulwich's rename detector paired with it
+(a rename, or — `copied` — a copy) and the path `find_previous_path` finds in
+THIS.  The transform then moves THIS's file (its trans_id) to the place given
+by the merged (parent, name) and gives it the merged kind / content / exec bit. -/
+
+/-- `paths3` and `copied` of one element -/
+structure PChange where
+  src : Option Id
+  dst : Option Id
+  cur : Option Id
+  copied : Bool
+  deriving DecidableEq, Repr
+
+def look (t : Tree) : Option Id → Option Entry
+  | none => none
+  | some i => t i
+
+/-- the loop body on the entries found at the three paths -/
+def PChange.result (base this other : Tree) (c : PChange) : Result :=
+  mergeChange (Change.ofEntries (look base c.src) (look other c.dst) (look this c.cur) c.copied)
+
+/-- the path the element's trans_id leaves: THIS's path, unless the element is a copy (its triples are
+rewritten to `(None, other, None)`: a new trans_id) -/
+def PChange.removes (c : PChange) : Option Id := if c.copied then none else c.cur
+
+/-- the entries the transform puts in place, each at the path `key parent name` -/
+def placements (key : Option Id → Nat → Id) (base this other : Tree) (cs : List PChange) : List (Id × Entry) :=
+  cs.filterMap fun c => (c.result base this other).entry.map fun e => (key e.parent e.name, e)
+
+/-- THIS after the transform: placed entries, vacated paths, everything else untouched -/
+def applyChanges (key : Option Id → Nat → Id) (base this other : Tree) (cs : List PChange) : Tree := fun i =>
+  match (placements key base this other cs).find? (fun pe => pe.1 == i) with
+  | some pe => some pe.2
+  | none => if cs.any (fun c => c.removes == some i) then none else this i
+
 /-! ### finite trees for the driver and for the well-formedness hypothesis -/
 
 abbrev FTree := List (Id × Entry)
